@@ -153,6 +153,25 @@ func updateConnContext(ctx context.Context, c net.Conn) context.Context {
 	return ctx
 }
 
+// withRequestTLS sets Request.TLS for HTTP/1.1 requests. net/http only does
+// so when the connection is a *tls.Conn, but HTTP/1.1 connections reach it
+// wrapped in *hack.TLSClientHelloConn; without this, ReverseProxy reports
+// "X-Forwarded-Proto: http" for them.
+func withRequestTLS(next http.Handler) http.Handler {
+	if next == nil {
+		next = http.DefaultServeMux
+	}
+	return http.HandlerFunc(func(w http.ResponseWriter, r *http.Request) {
+		if r.TLS == nil {
+			if md, ok := metadata.FromContext(r.Context()); ok && md.ConnectionState.HandshakeComplete {
+				cs := md.ConnectionState
+				r.TLS = &cs
+			}
+		}
+		next.ServeHTTP(w, r)
+	})
+}
+
 func (server *Server) serveHTTP1() {
 	err := server.HTTPServer.Serve(server.http1ConnChannelListener)
 
@@ -193,6 +212,7 @@ func (server *Server) setupServe() {
 
 	// start HTTP/1.1 server
 	if server.http1ConnChannelListener == nil {
+		server.HTTPServer.Handler = withRequestTLS(server.HTTPServer.Handler)
 		server.http1ConnChannelListener = hack.NewChannelListener(server.ctx)
 		go server.serveHTTP1()
 	}
